@@ -69,6 +69,7 @@
 //! *   `q1`, `q2` and `q3` represents exact quartile values.
 //! *   There is a bucket that have the same amount as `q1`, `q2` or `q3`.
 
+#[cfg(not(fast_tlsh_verif))]
 #[cfg(all(
     feature = "simd-per-arch",
     feature = "opt-simd-bucket-aggregation",
@@ -76,6 +77,7 @@
     any(target_arch = "x86", target_arch = "x86_64")
 ))]
 use std::arch::is_x86_feature_detected;
+#[cfg(not(fast_tlsh_verif))]
 #[cfg(all(
     feature = "simd-per-arch",
     feature = "opt-simd-bucket-aggregation",
@@ -83,6 +85,14 @@ use std::arch::is_x86_feature_detected;
     any(target_arch = "x86", target_arch = "x86_64")
 ))]
 use std::sync::OnceLock;
+#[cfg(all(
+    fast_tlsh_verif,
+    feature = "simd-per-arch",
+    feature = "opt-simd-bucket-aggregation",
+    feature = "detect-features",
+    any(target_arch = "x86", target_arch = "x86_64")
+))]
+use crate::verif::{is_x86_feature_detected, OnceLock};
 
 #[allow(dead_code)]
 mod portable_simd;
